@@ -330,7 +330,9 @@ func (ev *Evaluator) zero(pos token.Pos, t types.Type) Value {
 		}
 		return sv
 	case *types.Map:
-		return NewMap()
+		m := NewMap()
+		m.IsNil = true
+		return m
 	}
 	return Nil{}
 }
@@ -475,7 +477,14 @@ func (ev *Evaluator) global(pos token.Pos, o *types.Var) Value {
 	}
 	// a repository variable with an initialiser starts with its value
 	if ev.VarInit != nil {
-		if init, pkg := ev.VarInit(o); init != nil {
+		init, pkg := ev.VarInit(o)
+		if init == nil && pkg != nil {
+			// declared in the repository without an initialiser: the zero value
+			cell := &Var{Obj: o, V: ev.zero(pos, o.Type())}
+			ev.globals[o] = cell
+			return cell.V
+		}
+		if init != nil {
 			cell := &Var{Obj: o, V: Opaque{Why: "initialisation cycle of " + o.Name()}}
 			ev.globals[o] = cell
 			env := &Env{vars: map[types.Object]*Var{}, pkg: pkg, frame: &activation{}}
@@ -851,6 +860,8 @@ func (ev *Evaluator) binop(pos token.Pos, op token.Token, x, y Value, t types.Ty
 			isNil = false
 		case *Ref, *StructVal, *FuncVal, *ChanVal:
 			isNil = false
+		case *MapVal:
+			isNil = xv.IsNil
 		case Nil:
 			isNil = true
 		default:
@@ -1227,6 +1238,9 @@ func (ev *Evaluator) lvalue(env *Env, e ast.Expr) *Ref {
 			return &Ref{
 				Get: func() Value { v, _ := ev.index(pos, xv, idx, elemT); return v },
 				Set: func(v Value) {
+					if xv.IsNil {
+						ev.fail(pos, "assignment to an entry of a nil map (run-time panic)")
+					}
 					if !xv.Set(idx, v) {
 						ev.fail(pos, "map store with non-constant key %s", Show(idx))
 					}
@@ -1869,6 +1883,31 @@ func (ev *Evaluator) native(pos token.Pos, fn *types.Func, recv Value, args []Va
 			return FConst(math.Log(f.C)), true
 		}
 		return &FExpr{Op: "log", A: f}, true
+	case "math.Min", "math.Max", "math.Abs", "math.Ceil", "math.Round", "math.Trunc", "math.Sqrt":
+		var fs []float64
+		for _, a := range args {
+			f, ok := a.(*FExpr)
+			if !ok || !f.IsConst() {
+				ev.fail(pos, "%s of a symbolic value", full)
+			}
+			fs = append(fs, f.C)
+		}
+		switch full {
+		case "math.Min":
+			return FConst(math.Min(fs[0], fs[1])), true
+		case "math.Max":
+			return FConst(math.Max(fs[0], fs[1])), true
+		case "math.Abs":
+			return FConst(math.Abs(fs[0])), true
+		case "math.Ceil":
+			return FConst(math.Ceil(fs[0])), true
+		case "math.Round":
+			return FConst(math.Round(fs[0])), true
+		case "math.Trunc":
+			return FConst(math.Trunc(fs[0])), true
+		case "math.Sqrt":
+			return FConst(math.Sqrt(fs[0])), true
+		}
 	case "math.Floor":
 		f, ok := args[0].(*FExpr)
 		if ok && f.IsConst() {
